@@ -208,6 +208,144 @@ def _strip_logging(tree):
             setattr(node, field, kept)
 
 
+def _normalise_syntax(tree):
+    """Statement-level normal forms applied to every module before anything is indexed, so that spelling variants of
+    one program are one program to every rule (each rewrite preserves behaviour):
+      * `not (a is b)` / `not (a in b)` / `not (a == b)` and their negated twins -> the single comparison
+      * `t = a if c else b` / `return a if c else b`  ->  the two-armed `if`
+      * `t = t <op> e`  ->  `t <op>= e`  (marked `_from_assign`: it does not modify the old object in place)
+      * `a, b = x, y` (independent, same length)  ->  `a = x; b = y`
+      * `if a: (if b: X)` with no else on either  ->  `if a and b: X`
+      * `while True: (if c: break); B`  ->  `while not c: B`
+      * `name = <constant>` for a local that is never read  ->  removed
+    """
+    import copy as _copy
+
+    neg = {ast.Is: ast.IsNot, ast.IsNot: ast.Is, ast.In: ast.NotIn, ast.NotIn: ast.In, ast.Eq: ast.NotEq, ast.NotEq: ast.Eq}
+
+    class N(ast.NodeTransformer):
+        def visit_UnaryOp(self, n):
+            self.generic_visit(n)
+            if isinstance(n.op, ast.Not) and isinstance(n.operand, ast.Compare) and len(n.operand.ops) == 1 and type(n.operand.ops[0]) in neg:
+                c = n.operand
+                return ast.copy_location(ast.Compare(left=c.left, ops=[neg[type(c.ops[0])]()], comparators=c.comparators), n)
+            return n
+
+    N().visit(tree)
+    # `not not c` in a test position is c
+    for n in ast.walk(tree):
+        if isinstance(n, (ast.If, ast.While, ast.IfExp, ast.Assert)):
+            while isinstance(n.test, ast.UnaryOp) and isinstance(n.test.op, ast.Not) and isinstance(n.test.operand, ast.UnaryOp) and isinstance(n.test.operand.op, ast.Not):
+                n.test = n.test.operand.operand
+
+    def call_free(t):
+        return not any(isinstance(x, (ast.Call, ast.NamedExpr, ast.Await, ast.Yield, ast.YieldFrom)) for x in ast.walk(t))
+
+    def root_name(t):
+        while isinstance(t, (ast.Attribute, ast.Subscript)):
+            t = t.value
+        return t.id if isinstance(t, ast.Name) else None
+
+    def loaded_names(e):
+        return {x.id for x in ast.walk(e) if isinstance(x, ast.Name)}
+
+    def one(st):
+        """Rewrite one statement (children already normalised) into a list of statements."""
+        if isinstance(st, ast.Assign) and len(st.targets) == 1 and isinstance(st.value, ast.IfExp) and isinstance(st.targets[0], (ast.Name, ast.Attribute, ast.Subscript)) and call_free(st.targets[0]):
+            v = st.value
+            a = ast.copy_location(ast.Assign(targets=[st.targets[0]], value=v.body), st)
+            b = ast.copy_location(ast.Assign(targets=[_copy.deepcopy(st.targets[0])], value=v.orelse), st)
+            return one(ast.copy_location(ast.If(test=v.test, body=one(a), orelse=one(b)), st))
+        if isinstance(st, ast.Return) and isinstance(st.value, ast.IfExp):
+            v = st.value
+            a = ast.copy_location(ast.Return(value=v.body), st)
+            b = ast.copy_location(ast.Return(value=v.orelse), st)
+            return one(ast.copy_location(ast.If(test=v.test, body=one(a), orelse=one(b)), st))
+        if isinstance(st, ast.Assign) and len(st.targets) == 1 and isinstance(st.value, ast.BinOp) and isinstance(st.targets[0], (ast.Name, ast.Attribute, ast.Subscript)) and call_free(st.targets[0]):
+            t = st.targets[0]
+            if ast.dump(_as_load(t)) == ast.dump(st.value.left):
+                aug = ast.copy_location(ast.AugAssign(target=t, op=st.value.op, value=st.value.right), st)
+                aug._from_assign = True
+                return [aug]
+        if isinstance(st, ast.Assign) and len(st.targets) == 1 and isinstance(st.targets[0], ast.Tuple) and isinstance(st.value, ast.Tuple) and len(st.targets[0].elts) == len(st.value.elts) and len(st.value.elts) >= 2:
+            ts, vs = st.targets[0].elts, st.value.elts
+            if all(isinstance(t, (ast.Name, ast.Attribute)) and call_free(t) for t in ts) and not any(isinstance(v, ast.Starred) for v in vs) and all(call_free(v) for v in vs):
+                roots = [root_name(t) for t in ts]
+                indep = all(r is not None for r in roots) and len(set(ast.dump(_as_load(t)) for t in ts)) == len(ts)
+                for k in range(1, len(vs)):
+                    if loaded_names(vs[k]) & set(roots[:k]):
+                        indep = False
+                if indep:
+                    out = []
+                    for t, v in zip(ts, vs):
+                        out.extend(one(ast.copy_location(ast.Assign(targets=[t], value=v), st)))
+                    return out
+        if isinstance(st, ast.While) and not st.orelse and isinstance(st.test, ast.Constant) and st.test.value is True and st.body and isinstance(st.body[0], ast.If) and not st.body[0].orelse and len(st.body[0].body) == 1 and isinstance(st.body[0].body[0], ast.Break):
+            t = st.body[0].test
+            t = t.operand if isinstance(t, ast.UnaryOp) and isinstance(t.op, ast.Not) else ast.copy_location(ast.UnaryOp(op=ast.Not(), operand=t), t)
+            rest = st.body[1:] or [ast.copy_location(ast.Pass(), st)]
+            return [ast.copy_location(ast.While(test=t, body=rest, orelse=[]), st)]
+        if isinstance(st, ast.If) and not st.orelse and len(st.body) == 1 and isinstance(st.body[0], ast.If) and not st.body[0].orelse:
+            inner = st.body[0]
+            lhs = list(st.test.values) if isinstance(st.test, ast.BoolOp) and isinstance(st.test.op, ast.And) else [st.test]
+            rhs = list(inner.test.values) if isinstance(inner.test, ast.BoolOp) and isinstance(inner.test.op, ast.And) else [inner.test]
+            test = ast.copy_location(ast.BoolOp(op=ast.And(), values=lhs + rhs), st.test)
+            return [ast.copy_location(ast.If(test=test, body=inner.body, orelse=[]), st)]
+        return [st]
+
+    def _as_load(t):
+        t2 = _copy.deepcopy(t)
+        for x in ast.walk(t2):
+            if hasattr(x, "ctx"):
+                x.ctx = ast.Load()
+        return t2
+
+    def block(stmts):
+        out = []
+        for st in stmts:
+            for f in ("body", "orelse", "finalbody"):
+                v = getattr(st, f, None)
+                if isinstance(v, list) and v and isinstance(v[0], ast.stmt):
+                    setattr(st, f, block(v))
+            for h in getattr(st, "handlers", []) or []:
+                h.body = block(h.body)
+            for c in getattr(st, "cases", []) or []:
+                c.body = block(c.body)
+            in_fn = True
+            out.extend(one(st))
+        return out
+
+    tree.body = block(tree.body)
+
+    # unread constant locals
+    for fn in [n for n in ast.walk(tree) if isinstance(n, (ast.FunctionDef, ast.AsyncFunctionDef))]:
+        loads, declared, dyn = set(), set(), False
+        for x in ast.walk(fn):
+            if isinstance(x, ast.Name) and isinstance(x.ctx, (ast.Load, ast.Del)):
+                loads.add(x.id)
+                if x.id in ("locals", "vars", "exec", "eval"):
+                    dyn = True
+            elif isinstance(x, (ast.Global, ast.Nonlocal)):
+                declared |= set(x.names)
+            elif isinstance(x, ast.AugAssign) and isinstance(x.target, ast.Name):
+                loads.add(x.target.id)  # an accumulator reads its initial value
+        if dyn:
+            continue
+        for node in ast.walk(fn):
+            if isinstance(node, ast.ClassDef):
+                continue
+            for field in ("body", "orelse", "finalbody"):
+                blk = getattr(node, field, None)
+                if not (isinstance(blk, list) and blk and isinstance(blk[0], ast.stmt)) or isinstance(node, ast.ClassDef):
+                    continue
+                kept = [s for s in blk if not (isinstance(s, ast.Assign) and len(s.targets) == 1 and isinstance(s.targets[0], ast.Name) and isinstance(s.value, ast.Constant) and s.targets[0].id not in loads and s.targets[0].id not in declared)]
+                if len(kept) != len(blk):
+                    if not kept:
+                        kept = [ast.copy_location(ast.Pass(), blk[0])]
+                    setattr(node, field, kept)
+    ast.fix_missing_locations(tree)
+
+
 def _propagate_aliases(tree):
     """Normal form for attribute aliases: a local bound exactly once, at the top level of a function, to a pure
     attribute chain rooted at a parameter (`state = self.state`, `p = self.proposal.flow`), with no assignment to
@@ -315,6 +453,18 @@ def _inline_temps(tree):
                     declared.add(x.arg)
                 elif isinstance(x, ast.ExceptHandler) and x.name:
                     declared.add(x.name)
+            # a name bound several times is still a temporary if every binding is immediately followed by its only read
+            pairs = {}
+            for node in ast.walk(fn):
+                for field in ("body", "orelse", "finalbody"):
+                    blk = getattr(node, field, None)
+                    if not (isinstance(blk, list) and blk and isinstance(blk[0], ast.stmt)):
+                        continue
+                    for a, b in zip(blk, blk[1:]):
+                        if isinstance(a, ast.Assign) and len(a.targets) == 1 and isinstance(a.targets[0], ast.Name) and isinstance(b, simple):
+                            nm = a.targets[0].id
+                            if sum(1 for x in ast.walk(b) if isinstance(x, ast.Name) and x.id == nm and isinstance(x.ctx, ast.Load)) == 1 and not any(isinstance(x, ast.Name) and x.id == nm and not isinstance(x.ctx, ast.Load) for x in ast.walk(b)):
+                                pairs[nm] = pairs.get(nm, 0) + 1
             for node in ast.walk(fn):
                 for field in ("body", "orelse", "finalbody"):
                     blk = getattr(node, field, None)
@@ -326,7 +476,7 @@ def _inline_temps(tree):
                         ok = isinstance(a, ast.Assign) and len(a.targets) == 1 and isinstance(a.targets[0], ast.Name) and isinstance(b, simple)
                         if ok:
                             nm = a.targets[0].id
-                            ok = nm not in declared and stores.get(nm) == 1 and loads.get(nm) == 1
+                            ok = nm not in declared and stores.get(nm) == loads.get(nm) == pairs.get(nm) and stores.get(nm, 0) >= 1
                         if ok:
                             order = eval_order(b)
                             use = [k for k, (n_, blocked) in enumerate(order) if isinstance(n_, ast.Name) and n_.id == nm and isinstance(n_.ctx, ast.Load)]
@@ -342,7 +492,8 @@ def _inline_temps(tree):
                             blk[i + 1] = R().visit(b)
                             del blk[i]
                             changed = True
-                            loads[nm] = 0
+                            for d_ in (loads, stores, pairs):
+                                d_[nm] = d_.get(nm, 1) - 1
                             continue
                         i += 1
 
@@ -394,6 +545,7 @@ class Program:
                     tree = ast.parse(source, filename=path)
                 except SyntaxError as e:
                     raise AnalysisError(f"cannot parse {rel}: {e}")
+                _normalise_syntax(tree)
                 if self.strip_logging:
                     _strip_logging(tree)
                 if self.propagate_aliases:
